@@ -68,13 +68,20 @@ Definition exp_where (w: gwhere) : generic := GnWhere (lex (gw_ty w)) (map embed
 Section Expected.
 Variable dedup_ty : list ty -> list ty.
 Variable dedup_lt : list string -> list string.
+(* a where-clause item either bounds something new (appended as a where bound) or names a declared type parameter, whose bounds it extends *)
+Definition has_gkey (gens: list generic) (k: list tt) : bool := existsb (fun g => tts_eqb (gkey g) k) gens.
+Definition exp_merge (gens: list generic) (w: gwhere) : list generic :=
+  let k := lex (gw_ty w) in
+  if has_gkey gens k then
+    map (fun g => match g with GnType k' d b => if tts_eqb k' k then GnType k' d (b ++ map embed (gw_bounds w)) else g | _ => g end) gens
+  else gens ++ [exp_where w].
 (* bounds pass through the HashSet only when a where clause follows the parameter list *)
 Definition exp_generics (og: option ggenerics) : list generic :=
   match og with
   | None => []
   | Some gg => match gg_where gg with
                | None => map exp_param (gg_params gg)
-               | Some (ws, _) => map (dedup_g dedup_ty dedup_lt) (map exp_param (gg_params gg) ++ map exp_where ws)
+               | Some (ws, _) => map (dedup_g dedup_ty dedup_lt) (fold_left exp_merge ws (map exp_param (gg_params gg)))
                end
   end.
 Definition expected (d: gdecl) : strukt :=
